@@ -70,15 +70,33 @@ def repo_sources():
 
 
 # ---------------------------------------------------------------- proof side
-def coq_build(log):
-    """Full .vo build of the development (incremental make). Returns (ok, output)."""
+def coq_closure(roots):
+    """dependency closure (as .vo targets, in build order) of the given coq/*.v files"""
+    rc, dep = sh(["coqdep", "-Q", ".", "Amgcl", "-sort"] + [os.path.basename(r) for r in roots], cwd=COQ)
+    out = []
+    for d in dep.split():
+        b = os.path.basename(d)
+        if b.endswith(".v") and not b.startswith("Extract_") and os.path.exists(os.path.join(COQ, b)):
+            out.append(b[:-2] + ".vo")
+    return out
+
+
+def coq_build(log, prop=None, group=None):
+    """Full .vo build (no -vos) of what this property needs: the dependency closure of
+    Properties_<prop>.v and of Extract_<group>.v.  (bin/setup builds the whole development.)
+    The lock only serialises writers of .vo files; closures are small so it is held briefly."""
+    roots = []
+    if prop: roots.append(os.path.join(COQ, "Properties_%s.v" % prop))
+    if group: roots.append(os.path.join(COQ, "Extract_%s.v" % group))
+    roots = [r for r in roots if os.path.exists(r)]
     with Lock("coq"):
         mk_coqproject()
         if not os.path.exists(os.path.join(COQ, "Makefile")) or \
            os.path.getmtime(os.path.join(COQ, "Makefile")) < os.path.getmtime(os.path.join(COQ, "_CoqProject")):
             sh(["coq_makefile", "-f", "_CoqProject", "-o", "Makefile"], cwd=COQ)
-        rc, out = sh(["timeout", "3000", "make", "-k", "-j%d" % NPROC], cwd=COQ, timeout=3100)
-    log.append(("coq make", rc))
+        targets = coq_closure(roots) if roots else []
+        rc, out = sh(["timeout", "3000", "make", "-k", "-j%d" % NPROC] + targets, cwd=COQ, timeout=3100)
+    log.append(("coq make %s" % " ".join(targets[-3:]), rc))
     return rc == 0, out
 
 
@@ -166,10 +184,12 @@ def build_cpp(names, log, extra_flags=None):
     res = {}
     todo = []
     for n in names:
-        flags = list(CXXFLAGS) + list((extra_flags or {}).get(n, []))
-        src = os.path.join(VERIF, "harness", "drv_%s.cpp" % n)
+        # "base@variant": same source, flag set extra_flags["@variant"] (e.g. sanitizers, poison)
+        base, _, var = n.partition("@")
+        flags = list(CXXFLAGS) + list((extra_flags or {}).get(n, [])) + list((extra_flags or {}).get("@" + var, []) if var else [])
+        src = os.path.join(VERIF, "harness", "drv_%s.cpp" % base)
         key = file_hash(rs + hs + [src]) + hashlib.sha256(" ".join(flags).encode()).hexdigest()[:8]
-        d = os.path.join(CACHE, "cpp", n)
+        d = os.path.join(CACHE, "cpp", n.replace("@", "__"))
         os.makedirs(d, exist_ok=True)
         exe = os.path.join(d, key[:24])
         res[n] = exe
@@ -336,7 +356,7 @@ def main():
         mod.pre_coq(REPO, VERIF, tier, seed)
 
     # 1. proof side
-    ok_build, build_out = coq_build(log)
+    ok_build, build_out = coq_build(log, prop, getattr(mod, "MODEL", "kernels"))
     pr = coq_properties(prop, log)
     if pr["forbidden"]:
         violations.append(("forbidden-construct", dict(theorem="(development)", detail=pr["forbidden"][:10])))
@@ -384,6 +404,9 @@ def main():
         else: new_fails.append(f)
     for kid, (k, fl) in known_hit.items():
         known_lines.append("KNOWN-FINDING: property=%s %s (%d case(s) this run; id=%s)" % (prop, k["what"], len(fl), kid))
+    if os.environ.get("VERIF_DEBUG"):
+        os.makedirs(os.path.join(BUILD, "run"), exist_ok=True)
+        json.dump(fails, open(os.path.join(BUILD, "run", "%s-fails.json" % prop), "w"), indent=1, default=str)
     if new_fails:
         new_fails.sort(key=lambda f: (f.get("size", 0), len(f.get("case", ""))))
         f = new_fails[0]
